@@ -874,7 +874,8 @@ func (c *client) metaLookup(ctx context.Context,
 
 	reg, addr, err := region.ParseRegionInfo(resp)
 	for err != nil {
-		if _, offline := err.(region.OfflineRegionError); !offline || len(resp.Cells) == 0 {
+		if _, offline := err.(region.OfflineRegionError); !offline || len(resp.Cells) == 0 ||
+			len(resp.Cells[0].Row) == 0 {
 			break
 		}
 		// The row of a split parent that hasn't been cleaned up yet. If its
